@@ -51,7 +51,7 @@ def check_case(case, ctx):
     if op == "image":
         par = case["params"]
         img, info = P.build_pe(_rng(case["seed"]), **{k: par[k] for k in ("arch", "lfanew", "magic_mz", "magic_pe", "compile_stamp",
-                                                                            "export_stamp", "nsec", "export_section", "data")})
+                                                                            "export_stamp", "nsec", "export_section", "data", "vsize_mode", "export_at_start")})
         prepend, append = par["prepend"], par["append"]
         stage = prepend + img + append + par["nulpad"]
         if par["xorenc"]:
@@ -111,7 +111,8 @@ def check_case(case, ctx):
         ctx.ok(fp=wire, nontrivial=nt, case={"op": "image", "params": {k: v for k, v in par.items() if k != "data"}, "config_embedded": bool(par["data"])},
                classes=(f"arch:{par['arch']}", f"xorenc:{par['xorenc']}", f"prepend:{'0' if not prepend else '1-899' if len(prepend) < 900 else '900'}",
                         f"append:{'none' if not append else 'some'}", f"export:{'none' if par['export_section'] is None else 'sec%d' % min(par['export_section'], par['nsec'] - 1)}",
-                        f"nsec:{par['nsec']}", f"magic_mz:{len(par['magic_mz'])}", f"magic_pe:{len(par['magic_pe'])}"))
+                        f"nsec:{par['nsec']}", f"magic_mz:{len(par['magic_mz'])}", f"magic_pe:{len(par['magic_pe'])}",
+                        f"vsize:{par['vsize_mode']}", "export:section-start" if par["export_at_start"] and par["export_section"] is not None else "export:inside"))
     elif op == "version":
         stamp, maxenum = case["stamp"], case["maxenum"]
         ctx.mon("version.precedence")
@@ -233,6 +234,7 @@ def gen_image(rng, version):
         "nsec": nsec, "export_section": rng.choice([None, 0, 1, nsec - 1, rng.randrange(0, nsec)]), "data": data,
         "prepend": prepend, "append": append, "nulpad": bytes(rng.choice([0, 0, 3, 64])) if append else bytes(rng.choice([0, 0, 0, 16])),
         "xorenc": rng.random() < 0.35, "nonce": rng.randbytes(4), "stub": P.filler(rng, rng.choice([0, 57, rng.randrange(0, 800)])),
+        "vsize_mode": rng.choice(["raw", "aligned"]), "export_at_start": rng.random() < 0.5,
     }
 
 
